@@ -215,6 +215,27 @@ package mhprimary
 //@   loop 1 invariant @busy-records 0 - 1 <= busyAt && (busyAt >= 0 ==> gB[busyAt] && busySize == gS[busyAt]) && 0 - 1 <= prevBusyAt && (prevBusyAt >= 0 ==> gB[prevBusyAt] && prevBusySize == gS[prevBusyAt])
 //@   loop 1 invariant @handles file != nil && fresh(file) && len(sizeBuf) == 4 && fresh(sizeBuf) && gc.primary == old(gc.primary) && gc.freeList == old(gc.freeList) && inv(gc.primary)
 
+// deleteRecords (C04, C13): a primary record is marked deleted only in the file its freelist
+// entry names (gfn, ghost: the number of the file behind the open handle), at the entry's local
+// offset, only if it is not deleted yet and its size prefix equals the entry's size, and the
+// mark is that same size with the deleted bit set. The file identity part is proved for runs in
+// which fstat on the freshly opened file does not fail (gstatfailed, ghost, sticky): after such a
+// failure the code keeps the new handle with the old file number and relies on the batch being
+// sorted to reopen it, and sortedness is not available from the sort.Slice model.
+//@ func deleteRecords(freeBatch []*types.Block, maxFileSize uint32, basePath string, affected map[uint32]struct{}) (count int)  property C04 C13
+//@   requires maxFileSize > 0 && affected != nil
+//@   requires forall i int :: 0 <= i && i < len(freeBatch) ==> freeBatch[i] != nil
+//@   modifies mapof(affected), elems(freeBatch)
+//@   ghost var gfn int = 0
+//@   ghost var gstatfailed bool = false
+//@   ghost at after call os.OpenFile#0: gfn = ite($r1 == nil, fileNum, gfn)
+//@   ghost at after call (*os.File).Stat#0: gstatfailed = (gstatfailed || $r1 != nil)
+//@   assert at before call os.OpenFile#0: @opens-named-file $a0 == fname(basePath, fileNum)
+//@   assert at before call (*os.File).ReadAt#0: @right-file $a0 == file && (gfn == fileNum || gstatfailed) && (localPos < 9223372036854775808 ==> $a2 == localPos) && len($a1) == 4
+//@   assert at before call (*os.File).WriteAt#0: @mark-matching-record $a0 == file && (gfn == fileNum || gstatfailed) && (localPos < 9223372036854775808 ==> $a2 == localPos) && len($a1) == 4 && recSize < 2147483648 && recSize == freeRec.Size && le32(bytes($a1), 0) == recSize + 2147483648
+//@   loop 0 invariant @open-file (file != nil && !gstatfailed ==> gfn == curFileNum) && (file == nil || fresh(file)) && affected != nil && 0 <= $idx && $idx <= len(freeBatch)
+//@   loop 0 invariant @entries forall i int :: 0 <= i && i < len(freeBatch) ==> freeBatch[i] != nil
+
 //@ func processFreeList(ctx context.Context, freeList *freelist.FreeList, basePath string, maxFileSize uint32) (affected map[uint32]struct{}, err error)
 //@   trusted T5 contract pending: marks the records named by the rotated freelist file as deleted (see DESIGN.md 10)
 //@   modifies heap("freelist.FreeList"), heap("os.File"), ctx.$done
